@@ -142,6 +142,16 @@ def run(ctx):
         sim = gen_schedules(ctx, name + "-sim", lim, i, w, 24, 7, simulate=60 if q else 600)
         if not ex or not sim:
             raise Undecided("no schedules generated for " + name)
+        if lim == "controller":
+            # a full-sync request is raised either by an event handler or by acquiring the lease
+            # (IngressReconciler.leaderChanged): every second one takes the second road
+            nlead = 0
+            for sc in ex + sim:
+                for a in sc["arrivals"]:
+                    if a["k"] == "f":
+                        nlead += 1
+                        if nlead % 2 == 0:
+                            a["via"] = "leader"
         groups.append((name, lim, i, w, ex + sim, len(ex), len(sim)))
     samples, total, exh, simn, offgrid, retried = [], 0, 0, 0, 0, 0
     drift_all = []
